@@ -122,13 +122,19 @@ pub closed spec fn marks_superset(a: DailyMutations, b: DailyMutations) -> bool 
 
 //@ extract src/database/deletion.rs :: impl DeletionQuery / fn update_daily_logs
 //@ attr #[verifier::loop_isolation(false)]
+//@ loop "for (room_id, entity, mdate) in &self.replaced_versions" iter itr
+            invariant
+                marks_superset(*old(daily_log), *daily_log),
+                forall|i: int| 0 <= i < itr.index@ ==> marked(*daily_log, (#[trigger] self.replaced_versions@[i]).0, self.replaced_versions@[i].1@, spec_day(self.replaced_versions@[i].2)),
 //@ loop "for edg in &self.edge_log" iter it
             invariant
                 marks_superset(*old(daily_log), *daily_log),
+                forall|i: int| 0 <= i < self.replaced_versions@.len() ==> marked(*daily_log, (#[trigger] self.replaced_versions@[i]).0, self.replaced_versions@[i].1@, spec_day(self.replaced_versions@[i].2)),
                 forall|i: int| 0 <= i < it.index@ ==> marked(*daily_log, (#[trigger] self.edge_log@[i]).room_id, self.edge_log@[i].src_entity@, spec_day(self.edge_log@[i].deletion_date)),
 //@ loop "for log in &self.node_log" iter it
             invariant
                 marks_superset(*old(daily_log), *daily_log),
+                forall|i: int| 0 <= i < self.replaced_versions@.len() ==> marked(*daily_log, (#[trigger] self.replaced_versions@[i]).0, self.replaced_versions@[i].1@, spec_day(self.replaced_versions@[i].2)),
                 forall|i: int| 0 <= i < self.edge_log@.len() ==> marked(*daily_log, (#[trigger] self.edge_log@[i]).room_id, self.edge_log@[i].src_entity@, spec_day(self.edge_log@[i].deletion_date)),
                 forall|i: int| 0 <= i < it.index@ ==> marked(*daily_log, (#[trigger] self.node_log@[i]).room_id, self.node_log@[i].entity@, spec_day(self.node_log@[i].deletion_date))
                     && marked(*daily_log, self.node_log@[i].room_id, self.node_log@[i].entity@, spec_day(self.node_log@[i].mdate)),
@@ -139,6 +145,8 @@ pub closed spec fn marks_superset(a: DailyMutations, b: DailyMutations) -> bool 
                     && marked(*final(daily_log), self.node_log@[i].room_id, self.node_log@[i].entity@, spec_day(self.node_log@[i].mdate)),
             // [deletion_marks_edge_tombstone_day] every reference tombstone marks the day it enters
             forall|i: int| 0 <= i < self.edge_log@.len() ==> marked(*final(daily_log), (#[trigger] self.edge_log@[i]).room_id, self.edge_log@[i].src_entity@, spec_day(self.edge_log@[i].deletion_date)),
+            // [deletion_marks_day_left_by_redated_rows] the source row of a deleted reference is re-dated: the day its previous version leaves is marked
+            forall|i: int| 0 <= i < self.replaced_versions@.len() ==> marked(*final(daily_log), (#[trigger] self.replaced_versions@[i]).0, self.replaced_versions@[i].1@, spec_day(self.replaced_versions@[i].2)),
             // [deletion_keeps_marks]
             marks_superset(*old(daily_log), *final(daily_log)),
 //@ end
